@@ -50,13 +50,13 @@ MIN_HITS = {
     'quick': {
         'mon:finite': 400, 'mon:range': 200, 'mon:member': 200, 'mon:identity': 60, 'mon:unbiased': 80,
         'mon:tern': 100, 'mon:ternbias': 30, 'mon:drive': 40, 'mon:linear': 200, 'mon:errbound': 100,
-        'mon:clientkeys': 20, 'mon:rounds': 60, 'mon:bits': 400, 'mon:zerodraw': 1, 'hook:uq': 300, 'hook:tq': 100, 'hook:rot': 200,
+        'mon:clientkeys': 20, 'mon:rounds': 60, 'mon:bits': 400, 'mon:zerodraw': 15, 'hook:uq': 300, 'hook:tq': 100, 'hook:rot': 200,
         'class:zero-leaf-drive': 2, 'class:identical-clients': 10, 'coords:unbiased-offgrid': 2000,
     },
     'thorough': {
         'mon:finite': 4000, 'mon:range': 2000, 'mon:member': 2000, 'mon:identity': 600, 'mon:unbiased': 800,
         'mon:tern': 1000, 'mon:ternbias': 300, 'mon:drive': 300, 'mon:linear': 2000, 'mon:errbound': 1000,
-        'mon:clientkeys': 200, 'mon:rounds': 600, 'mon:bits': 4000, 'mon:zerodraw': 1, 'hook:uq': 3000, 'hook:tq': 1000, 'hook:rot': 2000,
+        'mon:clientkeys': 200, 'mon:rounds': 600, 'mon:bits': 4000, 'mon:zerodraw': 15, 'hook:uq': 3000, 'hook:tq': 1000, 'hook:rot': 2000,
         'class:zero-leaf-drive': 20, 'class:identical-clients': 100, 'coords:unbiased-offgrid': 20000,
     },
 }
@@ -334,7 +334,7 @@ def selfcheck(ctx):
 
 # ================================================================== generators
 def shape_pool(rng, count):
-  forced = [(1,), (257,), (2,), (), (16, 16), (3, 5, 7), (256,), (1, 1, 1)]
+  forced = [(1,), (257,), (2,), (), (16, 16), (3, 5, 7), (256,), (2, 1, 3)]
   pool = []
   for i in range(count):
     if i < len(forced):
@@ -508,6 +508,44 @@ def run_zerodraw(ctx, jax, jnp, C):
         ctx.check(np.array_equal(out, v), 'identity/uniform-changed-on-zero-draw',
                   f'uniform_stochastic_quantize(levels=2) changed an on-grid vector under a key with a 0.0 draw',
                   {**wit, 'quantizer': 'uniform', 'changed_coords': np.flatnonzero(out != v).tolist()})
+    # The analogous boundary in the uniform quantizer (threshold = frac = 0 with rand == 0) and in TernGrad:
+    # dyadic on-grid vectors with every level index placed once on the zero-draw coordinate.
+    zrng = ctx.rng('zerodraw-levels')
+    for levels in (2, 3, 5, 17, 257):
+      for at in sorted({0, levels - 1, int(zrng.randint(0, levels))}):
+        idx = zrng.randint(0, levels, size=d)
+        idx[(pos + 2) % d], idx[(pos + 3) % d] = 0, levels - 1
+        idx[pos] = at
+        v = ((idx - 7) * 0.25).astype(np.float32)
+        wit = {'quantizer': 'uniform', 'levels': levels, 'PRNGKey_seed': seed, 'shape': [d], 'coord': pos,
+               'vector': 'on-grid dyadic: (idx-7)*0.25', 'level_index_at_coord': at, 'uniform_draw_at_coord': 0.0, 'v': v[:24]}
+        r = ctx.call('uniform_stochastic_quantize', C.uniform_stochastic_quantize, jnp.asarray(v), levels, key, witness=wit)
+        if r.ok:
+          out = np.asarray(r.value)
+          ctx.count('mon:zerodraw')
+          ctx.check(np.array_equal(out, v), 'identity/uniform-changed-on-zero-draw',
+                    f'uniform_stochastic_quantize(levels={levels}) changed a dyadic on-grid vector under a key whose draw is '
+                    f'0.0 at a coordinate holding level {at}', {**wit, 'changed_coords': np.flatnonzero(out != v).tolist(),
+                                                               'out_at_coord': float(out[pos])})
+    # off-grid coordinate on the zero draw: must go to a neighbour (the upper one), never elsewhere
+    v = zrng.randn(d).astype(np.float32)
+    g = Grid(v, 4)
+    r = ctx.call('uniform_stochastic_quantize', C.uniform_stochastic_quantize, jnp.asarray(v), 4, key, witness={'PRNGKey_seed': seed})
+    if r.ok:
+      j = GridJudge(g, False, False)
+      j.add(np.asarray(r.value).reshape(1, -1))
+      ctx.count('mon:zerodraw')
+      ctx.check(not j.bad, 'member/uniform-not-a-grid-neighbour', 'uniform quantizer left the grid neighbours under a zero draw',
+                {'PRNGKey_seed': seed, 'bad': j.bad, 'v': v[:24]})
+    vt = zrng.randn(d).astype(np.float32)
+    vt[pos] = 0.0
+    r = ctx.call('terngrad_quantize', C.terngrad_quantize, jnp.asarray(vt), key, witness={'PRNGKey_seed': seed})
+    if r.ok:
+      jt = TernJudge(Tern(vt))
+      jt.add(np.asarray(r.value).reshape(1, -1))
+      ctx.count('mon:zerodraw')
+      ctx.check(not jt.bad, 'tern/output-not-in-{-s,0,+s}', 'terngrad_quantize under a zero draw at a zero coordinate',
+                {'PRNGKey_seed': seed, 'bad': jt.bad, 'out_at_coord': float(np.asarray(r.value)[pos])})
     ctx.case_done(('zerodraw', seed, pos), sample={'family': 'zerodraw', 'PRNGKey_seed': seed, 'coord': pos},
                   klass='zerodraw')
 
